@@ -1,9 +1,12 @@
 package verifh
 
 import (
+	"context"
+	"encoding/json"
 	"fmt"
 
 	"github.com/creachadair/jrpc2"
+	rt "github.com/creachadair/jrpc2/verifrt"
 )
 
 func init() {
@@ -199,14 +202,129 @@ func scenarioC09(r *Run) {
 		return
 	}
 	w.checkC09(false)
-	if r.Failed() || !w.shutdown() {
+	if r.Failed() {
+		return
+	}
+	restart := w.push && r.Gen.Chance("restartpush", 0.5)
+	var rp *restartPush
+	if restart {
+		// the same server is started on a fresh channel as soon as WaitStatus
+		// returns (callback watchers of the old connection may still be winding
+		// down) and pushes calls at once
+		rp = w.shutdownAndRestartPush(1 + r.Gen.Int("nrestartcb", 3))
+		if rp == nil {
+			return
+		}
+	} else if !w.shutdown() {
 		return
 	}
 	w.qpoints = append(w.qpoints, w.seq())
 	w.checkC09(true)
+	if rp != nil && !r.Failed() {
+		rp.check(w)
+	}
 	for _, a := range w.acts {
 		if a.Kind == aCallback && a.FromH != nil && a.FromH.Kind == mNote && a.Done && a.ErrV == nil {
 			r.Probe("notification-handler-awaited-callback")
 		}
+	}
+}
+
+type restartPush struct {
+	n       int
+	results []string
+	errs    []string
+	done    []bool
+	status2 *jrpc2.ServerStatus
+}
+
+func (w *srvWorld) shutdownAndRestartPush(n int) *restartPush {
+	r := w.r
+	rp := &restartPush{n: n, results: make([]string, n), errs: make([]string, n), done: make([]bool, n)}
+	sEnd2, pEnd2 := NewPipe(r, "srv2", "peer2")
+	sEnd2.CloseUnblocks = w.sEnd.CloseUnblocks
+	w.closeGate = true
+	w.releaseAll = true
+	finished := 0
+	r.Sim.Spawn("w-wait", func() {
+		st := w.srv.WaitStatus()
+		w.status = &st
+		w.waitSeq = w.seq()
+		r.Ev("waitstatus", "", 0, 0, fmt.Sprintf("%+v", st))
+		w.srv.Start(sEnd2)
+		r.Ev("restart", "", 0, 0, "")
+		for i := 0; i < n; i++ {
+			i := i
+			r.Sim.Spawn(fmt.Sprintf("w-rcb%d", i), func() {
+				rsp, err := w.srv.Callback(context.Background(), "pushcall", map[string]string{"t": fmt.Sprintf("rp%d", i)})
+				rp.errs[i] = errStr(err)
+				if err == nil {
+					rp.results[i] = rsp.ResultString()
+				}
+				rp.done[i] = true
+				finished++
+				r.Ev("restart.cb.return", fmt.Sprint(i), 0, 0, rp.errs[i]+rp.results[i])
+			})
+		}
+	})
+	r.Sim.Spawn("p2-peer", func() {
+		for {
+			b, err := pEnd2.Recv()
+			if err != nil {
+				return
+			}
+			o := &outRec{Raw: string(b)}
+			parseOut(o)
+			for _, ob := range o.Objs {
+				if ob.Method != "" && ob.ID != "" {
+					var p tagParams
+					json.Unmarshal([]byte(ob.Params), &p)
+					pEnd2.Send([]byte(fmt.Sprintf(`{"jsonrpc":"2.0","id":%s,"result":{"r":"reply-%s"}}`, ob.ID, p.T)))
+				}
+			}
+		}
+	})
+	if !r.RunQ() {
+		return nil
+	}
+	// the peer of the second connection goes away; the server exits
+	r.Sim.Spawn("p2-close", func() { pEnd2.Close() })
+	r.Sim.Spawn("w-wait2", func() {
+		rt.Block("wait2", func() bool { return w.status != nil })
+		st := w.srv.WaitStatus()
+		rp.status2 = &st
+	})
+	if !r.RunQ() {
+		return nil
+	}
+	return rp
+}
+
+func (rp *restartPush) check(w *srvWorld) {
+	r := w.r
+	if w.status == nil {
+		r.Fail("callback-never-returned", "WaitStatus did not return after the peer closed")
+		return
+	}
+	for i := 0; i < rp.n; i++ {
+		want := fmt.Sprintf(`{"r":"reply-rp%d"}`, i)
+		if !rp.done[i] {
+			r.Fail("callback-never-returned", "after a restart on a fresh channel: Callback rp%d, which the peer answered at once, has not returned", i)
+			return
+		}
+		if rp.errs[i] != "" || compactJSON(rp.results[i]) != want {
+			r.Fail("callback-foreign-reply", "after a restart on a fresh channel: Callback rp%d returned (%q, err %q), the peer answered %s", i, rp.results[i], rp.errs[i], want)
+			return
+		}
+	}
+	r.Probe("callbacks-on-restarted-server")
+	var left []string
+	for _, g := range r.Sim.Unfinished() {
+		if g.Lib {
+			left = append(left, g.Name+"@"+g.Site+"("+g.State()+")")
+		}
+	}
+	if len(left) > 0 {
+		r.Fail("callback-never-returned", "after the restarted server exited: goroutines left: %v", left)
 	}
 }
